@@ -250,7 +250,7 @@ fn t_classes() -> Vec<(&'static str, Duration)> {
 fn c04_case(ctx: &mut Ctx, rng: &mut Rng, i: u64) {
     let seed = rng.next() >> 1;
     let tcs = t_classes();
-    let kinds = ["silent", "trickle", "burst-then-silent", "flood", "closes-stdin-pipe-full", "closes-stdin-pipe-not-full", "exits-mid-exchange", "no-limit-control"];
+    let kinds = ["silent", "trickle", "burst-then-silent", "flood", "closes-stdin-pipe-full", "closes-stdin-pipe-not-full", "exits-mid-exchange", "no-limit-control", "slow-reader-of-large-input"];
     let kind = kinds[(i % kinds.len() as u64) as usize];
     let (tname, t) = tcs[rng.below(tcs.len() as u64) as usize].clone();
     let cap: i64 = 65536;
@@ -291,6 +291,12 @@ fn c04_case(ctx: &mut Ctx, rng: &mut Rng, i: u64) {
             input = Some(comm::input_for(seed, rng.range(1, 5000) as usize));
             first_time = if rng.chance(500) { None } else { Some(t) };
             format!("c0,s{},w1:100:100,x0", rng.range(1, 20))
+        }
+        "slow-reader-of-large-input" => {
+            // the input is several times the pipe capacity and the child starts reading late: reads time out part-way
+            // through the input and are resumed; the child must still receive every byte exactly once
+            input = Some(comm::input_for(seed, rng.range(cap as u64 * 2, cap as u64 * 6) as usize));
+            format!("s{},r{},s{},R,w1:{}:4096,x0", rng.range(8, 25), rng.range(1, 70000), rng.range(0, 15), rng.range(0, 20000))
         }
         "exits-mid-exchange" => {
             input = if rng.chance(500) { Some(comm::input_for(seed, rng.range(1, 300_000) as usize)) } else { None };
